@@ -58,6 +58,8 @@ def random_programs(rng, kinds, n, nops, maxcalls=4):
             p = schema.saturate(p, False)   # every scalar argument zero ("value == 0" must not read as "not supplied")
         elif i % 11 == 5:
             p = schema.saturate(p, True)    # every scalar argument all-ones
+        elif i % 13 == 6:
+            p = schema.equalize(p, rng)     # all scalars of one width equal (base == length, equal ids, ...)
         progs.append(p)
     return progs
 
